@@ -358,11 +358,24 @@ theorem kept_sorted_kept (wf : s.WF) (recs : List Rec) :
   have := ((mem_sorted_kept s recs r).1 hr).2
   simp [this]
 
+theorem admitsVersion_iff (ver : Nat) : admitsVersion ver = true ↔ ver = 0 ∨ ver = 2 := by
+  simp [admitsVersion, Gen.Wire.PSBT_VERSIONS]
+
+/-- pairwise distinct key origins survive dropping and reordering records -/
+theorem distinctOk_of_perm_sublist (l l' l'' : List Rec) (hp : l'.Perm l'') (hs : l''.Sublist l)
+    (h : s.distinctOk l = true) : s.distinctOk l' = true := by
+  simp only [Spec.distinctOk, List.all_eq_true, decide_eq_true_eq] at h ⊢
+  intro ty hty
+  have h1 := h ty hty
+  have h2 : ((l''.filter (fun r => tyOf r.1 == ty)).map (·.2)).Nodup :=
+    List.Nodup.sublist ((hs.filter _).map _) h1
+  exact ((hp.filter _).map _).nodup_iff.2 h2
+
 /-- what `reser` answers with, spelled out -/
 theorem reser_ok (wf : s.WF) (ver : Nat) (b out : Bytes) (h : reser s ver b = .ok out) :
     ∃ recs, parseMap b = .ok (recs, []) ∧ recs.all (s.recordOk ver) = true ∧ ValidRecs recs ∧
       toRecs s ver (fromRecs s recs) = sortRecs s.rank (s.kept recs) ∧
-      out = serMap (sortRecs s.rank (s.kept recs)) ∧ (ver = 0 ∨ ver = 2) := by
+      out = serMap (sortRecs s.rank (s.kept recs)) ∧ (ver = 0 ∨ ver = 2) ∧ s.distinctOk recs = true := by
   unfold reser at h
   split at h
   · cases h
@@ -374,8 +387,10 @@ theorem reser_ok (wf : s.WF) (ver : Nat) (b out : Bytes) (h : reser s ver b = .o
       · cases h
       · rename_i hr
         split at h
-        · rename_i hall
+        · rename_i hall'
           cases h
+          have hall : recs.all (s.recordOk ver) = true := (Bool.and_eq_true _ _ ▸ hall').1
+          have hdist : s.distinctOk recs = true := (Bool.and_eq_true _ _ ▸ hall').2
           have : rest = [] := by simpa using hr
           subst this
           have ⟨hv, _⟩ := serMap_parseMap _ _ _ hp
@@ -385,9 +400,9 @@ theorem reser_ok (wf : s.WF) (ver : Nat) (b out : Bytes) (h : reser s ver b = .o
             fun r hr => recordOk_not_gated s wf ver r (List.all_eq_true.1 hall r hr)
           have e := toRecs_fromRecs s wf ver recs hv hok hgate
           have hver : ver = 0 ∨ ver = 2 := by
-            simp only [admitsVersion, Bool.not_eq_true', Bool.not_eq_false, Bool.or_eq_true, beq_iff_eq] at hadm
-            exact hadm
-          exact ⟨recs, hp, hall, hv, e, by rw [e], hver⟩
+            apply (admitsVersion_iff ver).1
+            simpa using hadm
+          exact ⟨recs, hp, hall, hv, e, by rw [e], hver, hdist⟩
         · cases h
 
 theorem parseMap_sorted_kept (recs : List Rec) (hv : ValidRecs recs) :
@@ -400,7 +415,9 @@ theorem parseMap_sorted_kept (recs : List Rec) (hv : ValidRecs recs) :
 /-- re-serialization is a fixed point after one round -/
 theorem reser_fixed (wf : s.WF) (ver : Nat) (b out : Bytes) (h : reser s ver b = .ok out) :
     reser s ver out = .ok out := by
-  obtain ⟨recs, hp, hall, hv, _, rfl, hver⟩ := reser_ok s wf ver b out h
+  obtain ⟨recs, hp, hall, hv, _, rfl, hver, hdist⟩ := reser_ok s wf ver b out h
+  have hdist' : s.distinctOk (sortRecs s.rank (s.kept recs)) = true :=
+    distinctOk_of_perm_sublist s recs _ (s.kept recs) (sortRecs_perm s.rank _) List.filter_sublist hdist
   have hv' : ValidRecs (sortRecs s.rank (s.kept recs)) :=
     validRecs_perm (sortRecs_perm s.rank _).symm (validRecs_sublist List.filter_sublist hv)
   have hall' : (sortRecs s.rank (s.kept recs)).all (s.recordOk ver) = true := by
@@ -411,12 +428,11 @@ theorem reser_fixed (wf : s.WF) (ver : Nat) (b out : Bytes) (h : reser s ver b =
     fun r hr hw => recordOk_keyData s ver r (List.all_eq_true.1 hall' r hr) hw
   have hgate : ∀ r ∈ sortRecs s.rank (s.kept recs), s.gated ver (tyOf r.1) = false :=
     fun r hr => recordOk_not_gated s wf ver r (List.all_eq_true.1 hall' r hr)
-  have hadm : admitsVersion ver = true := by
-    rcases hver with rfl | rfl <;> rfl
+  have hadm : admitsVersion ver = true := (admitsVersion_iff ver).2 hver
   unfold reser
   rw [parseMap_sorted_kept s recs hv]
-  simp only [hadm, List.isEmpty_nil, Bool.not_true, Bool.false_eq_true, if_false, hall', if_true,
-    toRecs_fromRecs s wf ver _ hv' hok hgate, kept_sorted_kept s wf, sortRecs_idem]
+  simp only [hadm, List.isEmpty_nil, Bool.not_true, Bool.false_eq_true, if_false, hall', hdist', Bool.and_self,
+    if_true, toRecs_fromRecs s wf ver _ hv' hok hgate, kept_sorted_kept s wf, sortRecs_idem]
 
 -- ------------------------------------------------------------------ the three map kinds
 instance (s : Spec) : Decidable (Spec.WF s) :=
@@ -437,6 +453,46 @@ theorem wf_specIn : specIn.WF := by decide
 theorem wf_specOut : specOut.WF := by decide
 theorem wf_specGlobal : specGlobal.WF := by decide
 
+/-- the falsy / object tables computed from the generated kind tables, evaluated -/
+theorem specIn_emptyIs : specIn.emptyIs = [(Gen.Wire.PSBT_IN_FINAL_SCRIPTWITNESS, [0])] := by decide
+theorem specGlobal_emptyIs : specGlobal.emptyIs = [(Gen.Wire.PSBT_GLOBAL_VERSION, [0, 0, 0, 0])] := by decide
+theorem specOut_emptyIs : specOut.emptyIs = [] := by decide
+
+theorem tyOf_ofNat_cons (ty : Nat) (h : ty < 256) (k : Bytes) : tyOf (UInt8.ofNat ty :: k) = ty := by
+  simp only [tyOf, UInt8.toNat_ofNat']
+  omega
+
+/-- the version gate of the serialize loop, on ANY typed object (constructed ones included): a record of a
+    field this version does not write comes out only if the caller filed it under `unknown` -/
+theorem toRecs_gated (wf : s.WF) (ver : Nat) (t : Typed) (r : Rec) (hr : r ∈ toRecs s ver t)
+    (hg : s.gated ver (tyOf r.1) = true) : r ∈ t.unknown := by
+  unfold toRecs at hr
+  obtain ⟨ty, hty, hmem⟩ := List.mem_flatMap.1 hr
+  unfold emit at hmem
+  by_cases h256 : ty = 256
+  · simp only [h256, if_true] at hmem
+    exact (sortKeys_perm _).mem_iff.1 hmem
+  · have hk : s.known ty = true := wf.order_known ty hty h256
+    have hlt : ty < 256 := (wf.known_in ty hk).2
+    simp only [h256, if_false] at hmem
+    by_cases hgt : s.gated ver ty = true
+    · simp [hgt] at hmem
+    · simp only [hgt, Bool.false_eq_true, if_false] at hmem
+      exfalso
+      apply hgt
+      split at hmem
+      · cases hmem
+      · split at hmem
+        · obtain ⟨e, _, he⟩ := List.mem_map.1 hmem
+          rw [← he] at hg
+          rw [tyOf_ofNat_cons ty hlt] at hg
+          exact hg
+        · have hmem' := (sortKeys_perm _).mem_iff.1 hmem
+          obtain ⟨e, _, he⟩ := List.mem_map.1 hmem'
+          rw [← he] at hg
+          rw [tyOf_ofNat_cons ty hlt] at hg
+          exact hg
+
 theorem reserGlobal_ok (b out : Bytes) (h : reserGlobal b = .ok out) :
     ∃ ver, (ver = 0 ∨ ver = 2) ∧ reser specGlobal ver b = .ok out := by
   unfold reserGlobal at h
@@ -450,9 +506,7 @@ theorem reserGlobal_ok (b out : Bytes) (h : reserGlobal b = .ok out) :
       split at h
       · cases h
       · refine ⟨globalVersion recs, ?_, h⟩
-        simp only [Bool.and_eq_true, bne_iff_ne, ne_eq, not_and, Decidable.not_not] at hv
-        by_cases h0 : globalVersion recs = 0
-        · left; exact h0
-        · right; exact hv h0
+        apply (admitsVersion_iff _).1
+        simpa using hv
 
 end Btc.Psbt
